@@ -198,7 +198,7 @@ pub fn run(tier: &str) -> i32 {
         (
             "append-reopen+mro",
             if quick { 9 } else { 12 },
-            mk_alpha(Alpha { sizes: vec![1], batches: vec![], clears: Clears::None, reopen: true, make_read_only: false, max_len: u64::MAX }),
+            mk_alpha(Alpha { sizes: vec![1], batches: vec![], clears: Clears::None, reopen: true, make_read_only: false, max_len: u64::MAX, far_clear: false }),
         ),
     ] {
         let a2 = alpha.clone();
